@@ -99,7 +99,16 @@ def run(rep, tier, seed):
     cases, metas = [], {}
     per_case = 12
     exps = []
+    # the word is completed in the MIDDLE of the line, right in front of a character that is also a removable suffix of the
+    # candidates (dir/ in front of /bin, key= in front of =1, a blank): the text after the cursor stays what it is
+    MID = [("cd di/bin", 5), ("xx d/bin x", 4), ("ls fi/le", 5), ("cd  /x", 3), ("a di b", 4), ("di/", 2), ("cd dir/sub", 5), ("d/", 1)]
+    MIDSETS = [[{"v": "dir/"}, {"v": "dir2/"}, {"v": "file"}], [{"v": "dir/"}], [{"v": "dir/"}, {"v": "dist/"}, {"v": "d/"}]]
     for _ in range(nexp):
+        if rng.random() < 0.12:
+            line, cur = rng.choice(MID)
+            cset = rng.choice(MIDSETS)
+            exps.append((line, cur, cset, [b"\t"] + [rng.choice(MENU_KEYS) for _ in range(rng.randint(0, 3))] + [rng.choice(END_KEYS)]))
+            continue
         line = rng.choice(LINES)
         cur = rng.choice([len(line), len(line), rng.randint(0, len(line))])
         cset = rng.choice(CANDSETS)
@@ -108,7 +117,7 @@ def run(rep, tier, seed):
         exps.append((line, cur, cset, ks))
     ci = 0
     # one candidate set / option set per case (the completer is per Shell)
-    for cset_i, cset in enumerate(CANDSETS):
+    for cset_i, cset in enumerate(CANDSETS + MIDSETS):
         mine = [x for x in exps if x[2] is cset]
         for chunk in chunks(mine, per_case):
             mode = rng.choice(["emacs", "vi"])
@@ -117,6 +126,8 @@ def run(rep, tier, seed):
             comp = {"cands": cset, "byword": rng.random() < 0.6}
             if rng.random() < 0.25:
                 comp["nospace"] = rng.choice(["/", "*", "="])
+            if any(cset is m for m in MIDSETS):
+                comp["nospace"] = rng.choice(["/", "/", "*"])
             cs = {"id": "c14-%d" % ci, "inputrc": ("set editing-mode vi\n" if mode == "vi" else "") + opts + case_options(rng, ci, skip=("autocomplete", "disable-completion", "completion-query-items", "history-autosuggest", "keyseq-timeout")), "w": rng.choice([80, 40, 120]), "h": 24,
                   "prompt": "> ", "comp": comp, "setups": [], "sessions": []}
             ci += 1
